@@ -40,6 +40,7 @@ var (
 	reDelAdd    = regexp.MustCompile(`delete\(add, \w+\)`)
 	reDelUpdate = regexp.MustCompile(`delete\(update, \w+\)`)
 	reDelDel    = regexp.MustCompile(`delete\(del, \w+\)`)
+	reSettled   = regexp.MustCompile(`settled = append\(settled, \w+\)`)
 )
 
 type problems struct{ list []string }
@@ -681,6 +682,7 @@ func genOpts(c *trlib.Ctx) error {
 	confirmAfterBatch, delCancelsAdd, delDropsUpdate, cancelledDelRemoved, swapUnderLock := true, true, true, true, true
 	batchOrder := []string{"GAdd", "GUpdate", "GDel"}
 	confirmGuard := true
+	settledConfirmed, confirmCounts := true, true
 
 	if f, err := c.Parse("storage/storage_badger.go"); err != nil {
 		pb.add("storage_badger.go: %v", err)
@@ -824,31 +826,28 @@ func genOpts(c *trlib.Ctx) error {
 			var posBatch, posConfirm, posLock, posUnlock, posClean token.Pos
 			var order []string
 			sawCancelLoop, sawRmLoop := false, false
+			sawConfirmAdd, sawConfirmSettled, settledBeforeBatch, settledBuilt := false, false, false, false
 			for _, st := range fd.Body.List {
 				// top-level statement containing ProcessBatch
 				if len(findCallsSel(st, "ProcessBatch")) > 0 && posBatch == 0 {
 					posBatch = st.Pos()
 				}
 				if rs, ok := st.(*ast.RangeStmt); ok {
-					// confirm loop: a send on confirmSyncCh inside
-					hasSend := false
-					ast.Inspect(rs.Body, func(n ast.Node) bool {
-						if s, ok := n.(*ast.SendStmt); ok && strings.Contains(trlib.ExprString(s.Chan), "confirmSyncCh") {
-							hasSend = true
-						}
-						return true
-					})
-					if hasSend {
-						posConfirm = st.Pos()
-						if trlib.ExprString(rs.X) != "add" {
-							pb.add("persist: the confirm loop ranges over %s, not add", trlib.ExprString(rs.X))
-						}
-						src := nodeString(rs.Body)
-						confirmGuard = strings.Contains(src, "storage.confirmMode") && strings.Contains(src, "ConfirmMeta != nil") && strings.Contains(src, "DeliveryTag > 0")
-						inc := strings.Index(src, "ActualConfirms++")
-						snd := strings.Index(src, "confirmSyncCh <-")
-						if inc < 0 || snd < 0 || inc > snd {
-							pb.add("persist: confirm loop is not `ActualConfirms++` followed by the send")
+					// confirm loops: `for _, message := range <add|settled> { storage.confirm(message) }`
+					if len(findCallsSel(rs.Body, "confirm")) > 0 && len(rs.Body.List) == 1 {
+						switch trlib.ExprString(rs.X) {
+						case "add":
+							if posConfirm == 0 {
+								posConfirm = st.Pos()
+							}
+							sawConfirmAdd = true
+						case "settled":
+							sawConfirmSettled = true
+							if posBatch == 0 || st.Pos() < posBatch {
+								settledBeforeBatch = true
+							}
+						default:
+							pb.add("persist: a confirm loop ranges over %s", trlib.ExprString(rs.X))
 						}
 					}
 					// batch-building loops: append(batch, ...) inside
@@ -870,6 +869,7 @@ func genOpts(c *trlib.Ctx) error {
 						sawCancelLoop = true
 						delCancelsAdd = reDelAdd.MatchString(src)
 						delDropsUpdate = reDelUpdate.MatchString(src)
+						settledBuilt = reSettled.MatchString(src)
 					} else if !strings.Contains(nodeString(rs.Body), "batch") && reDelDel.MatchString(nodeString(rs.Body)) {
 						// second pass: the cancelled keys are removed from del as well
 						cancelledDelRemoved = true
@@ -906,6 +906,30 @@ func genOpts(c *trlib.Ctx) error {
 				delCancelsAdd, delDropsUpdate = false, false
 				pb.add("persist: no loop over del that cancels adds and updates")
 			}
+			if !sawConfirmAdd {
+				pb.add("persist: no `for _, message := range add { storage.confirm(message) }` loop")
+			}
+			settledConfirmed = sawConfirmSettled && settledBuilt && !settledBeforeBatch
+			if sawConfirmSettled != settledBuilt {
+				pb.add("persist: `settled` is built (%v) but confirmed (%v)", settledBuilt, sawConfirmSettled)
+			}
+			// the confirm method: guard, then Confirm() deciding the send
+			if cf := trlib.FuncDecl(f, "MsgStorage.confirm"); cf != nil {
+				c.RecordShapes("msgstorage/msgstorage.go", f, "MsgStorage.confirm")
+				src := nodeString(cf.Body)
+				confirmGuard = strings.Contains(src, "storage.confirmMode") && strings.Contains(src, "ConfirmMeta != nil") && strings.Contains(src, "DeliveryTag > 0")
+				snd := strings.Index(src, "confirmSyncCh <-")
+				cnt := strings.Index(src, "ConfirmMeta.Confirm()")
+				if snd < 0 {
+					pb.add("confirm: no send on confirmSyncCh")
+				}
+				confirmCounts = cnt >= 0 && cnt < snd && strings.Contains(src, "if message.ConfirmMeta.Confirm()")
+				if cnt >= 0 && !confirmCounts {
+					pb.add("confirm: Confirm() is called but does not guard the send")
+				}
+			} else {
+				pb.add("MsgStorage.confirm missing")
+			}
 		} else {
 			pb.add("persist missing")
 		}
@@ -941,6 +965,8 @@ func genOpts(c *trlib.Ctx) error {
 	fmt.Fprintf(&sb, "Definition persist_batch_order : list batch_group := [%s].\n", strings.Join(batchOrder, "; "))
 	fmt.Fprintf(&sb, "Definition persist_confirm_after_batch : bool := %s.\n", trlib.CoqBool(confirmAfterBatch))
 	fmt.Fprintf(&sb, "Definition persist_confirm_guarded : bool := %s.\n", trlib.CoqBool(confirmGuard))
+	fmt.Fprintf(&sb, "(* adds cancelled by a del in the same window are remembered (`settled`) and confirmed after the batch *)\nDefinition persist_settled_confirmed : bool := %s.\n", trlib.CoqBool(settledConfirmed))
+	fmt.Fprintf(&sb, "(* the relay is sent only when ConfirmMeta.Confirm() reports that this call completed the message *)\nDefinition persist_confirm_counts : bool := %s.\n", trlib.CoqBool(confirmCounts))
 
 	if len(pb.list) > 0 {
 		c.Unrec(optsRel, strings.Join(pb.list, "; "))
